@@ -73,7 +73,7 @@ def rand_pack(rng, cls=None, allow_iterative=True, allow_prefix_ver=True, allow_
     o["inferral"] = inf
     layouts = ["initial", "initial", "sets"] + (["same"] if allow_same else [])
     o["layout"] = rng.choice(layouts)
-    o["factory"] = rng.choice((None, None, None, None, None, 0, 1, 2, 3, 4))
+    o["factory"] = rng.choice((None, None, None, None, None, 0, 1, 2, 3, 4, 5))
     has_stats = bool(cls and cls["stats"])
     vers = ["stat", "stat", "stat"]
     if not has_stats:
